@@ -1,86 +1,181 @@
-(* C01 — log contents equal an append-only list model (pinned statements of the PROVED COMPONENTS; proofs
-   in StorageFacts.v, OffsetFacts.v, TreeRef.v, BitfieldFacts.v, CoreFacts.v).
-   The full refinement statement (every history over append / batch / clear / get / has / info / reopen
-   observes exactly the list model) is NOT proved as one theorem; what is proved are the facts it rests on:
-   (1) storage: a read returns what was written there, writes elsewhere do not disturb it, writing at the end
-       appends, delete zero-fills or truncates as random-access-memory does, shrink-then-grow exposes zeros;
-   (2) the block data of an append is written at offset = byte length and the oplog entry after it, the flush
-       group after that (journal order);
-   (3) the tree built by any batching of appends is the reference tree, whose node sizes are the sums of the
-       block sizes they span (C05), and the byte-offset walk over a tree with such sizes returns the sum of the
-       sizes of the roots and leaves strictly to the left of the block = the prefix sum of the block sizes;
-   (4) has(i) after any sequence of set/clear updates is the range semantics (C08); clear never sends events
-       and get of a missing block returns None without side effect (C13).
-   The composition across flush / reopen / replay is decided on every run by tools/c01.py: corpus,
-   bounded-exhaustive and random histories with reopen after arbitrary prefixes and a core crossing 8192 and
-   32768 blocks, judged by the list-model oracle and compared operation by operation with the Coq model. *)
-From HC Require Import Base NMap Codec Crypto FlatTree Storage Bitfield Oplog Merkle Core.
-From HC Require Import StorageFacts OffsetFacts TreeRef CoreFacts.
+(* C01 — log contents equal an append-only list model (pinned statements, generated from the types Coq reports;
+   proofs in Refine.v, StorageFacts.v, OffsetFacts.v, TreeRef.v, CoreFacts.v).
+   PROVED END TO END for the fragment {append, batch append (empty batches, empty blocks included), get, has,
+   info} from the creation of a writer, for EVERY sequence of flush decisions (theorems C01_fresh_history /
+   C01_history): the observations of the model equal the list model's (`spec_obs`: get i = the i-th appended
+   block or None, length = count, byte length = total size, contiguous length = count), with core, disk and
+   journal untouched by reads. The invariant WInv (tree = reference tree with every full node found by lookup in
+   the unflushed map or the tree store, bitfield = [0,n), data file = concatenation of the blocks) is established by
+   creation and preserved by every append, including across flushes that move nodes to the store.
+   Hypotheses, all satisfiable and exhibited by the toy instance of Refine.v: the hash returns 32 bytes and never
+   32 zero bytes (a node whose hash is all zeros is treated as blank by the crate — `blank_hash_breaks_reads` shows
+   the model failing without this; for BLAKE2b this has probability 2^-256), totals below 2^64; the only other
+   outcome allowed is the crate's own panic for an oplog entry larger than 2^30 bytes.
+   NOT proved: clears and close/reopen (replay). Those parts of the property are decided on every run by tools/c01.py
+   (corpus, bounded-exhaustive and random histories with clears and reopen after arbitrary prefixes, "epoch"
+   histories, a core crossing 8192 and 32768 blocks) under the list-model oracle, with the model executed side by
+   side; the components they rest on are proved: storage semantics incl. delete (below), C06 (what is written is
+   read back), C08 (bitfield and contiguous length under replay), C02 (which header/entries a reopen sees). *)
+From HC Require Import Base NMap Codec Crypto FlatTree Storage Bitfield Oplog Merkle Core StorageFacts OffsetFacts TreeRef CoreFacts Refine.
 
-Theorem C01_read_after_write : forall f off data,
-  f_read (f_write f off data) off (len data) = Some data.
+Theorem C01_fresh_history :
+  forall cr : crypto,
+         (forall x : bytes, Datatypes.length (cr_hash cr x) = 32%nat) ->
+         (forall x : bytes, all_zero (cr_hash cr x) = false) ->
+         forall (kp : keypair) (sk : bytes) (ops : list wop),
+         OplogFacts.keypair_ok kp = true ->
+         kp_secret kp = Some sk ->
+         sumN (map len (appended ops)) <= u64_max ->
+         NODE_SIZE * (2 * N.of_nat (Datatypes.length (appended ops))) <= u64_max ->
+         exists (d0 : disk) (ops0 : list sop) (c0 : core),
+           core_open cr (Some kp) false disk_empty = (d0, ops0, Ok c0) /\
+           (run_obs cr ops c0 {| w_disk := d0; w_journal := []; w_events := [] |} = spec_obs ops [] \/
+            (exists k : nat,
+               run_obs cr ops c0 {| w_disk := d0; w_journal := []; w_events := [] |} =
+               firstn k (spec_obs ops []) ++ [OAppend (Panic frame_msg)])).
+Proof. exact fresh_history_correct. Qed.
+
+Theorem C01_history :
+  forall cr : crypto,
+         (forall x : bytes, Datatypes.length (cr_hash cr x) = 32%nat) ->
+         (forall x : bytes, all_zero (cr_hash cr x) = false) ->
+         forall (ops : list wop) (c : core) (d : disk) (j : list sop) (ev : list event) 
+           (bs : list bytes) (sk : bytes),
+         WInv cr c d bs ->
+         kp_secret (c_keypair c) = Some sk ->
+         sumN (map len (bs ++ appended ops)) <= u64_max ->
+         NODE_SIZE * (2 * N.of_nat (Datatypes.length (bs ++ appended ops))) <= u64_max ->
+         run_obs cr ops c {| w_disk := d; w_journal := j; w_events := ev |} = spec_obs ops bs \/
+         (exists k : nat,
+            run_obs cr ops c {| w_disk := d; w_journal := j; w_events := ev |} =
+            firstn k (spec_obs ops bs) ++ [OAppend (Panic frame_msg)]).
+Proof. exact history_correct. Qed.
+
+Theorem C01_creation_establishes_invariant :
+  forall (cr : crypto) (kp : keypair),
+         OplogFacts.keypair_ok kp = true ->
+         exists (d' : disk) (ops : list sop) (c : core),
+           core_open cr (Some kp) false disk_empty = (d', ops, Ok c) /\ WInv cr c d' [] /\ c_keypair c = kp.
+Proof. exact WInv_init_keypair_ok. Qed.
+
+Theorem C01_append_preserves_invariant :
+  forall cr : crypto,
+         (forall x : bytes, Datatypes.length (cr_hash cr x) = 32%nat) ->
+         (forall x : bytes, all_zero (cr_hash cr x) = false) ->
+         forall (f : option bool) (batch : list bytes) (c : core) (d : disk) (j : list sop) 
+           (ev : list event) (bs : list bytes) (sk : bytes) (c' : core) (w' : world) 
+           (r : res (N * N)),
+         WInv cr c d bs ->
+         kp_secret (c_keypair c) = Some sk ->
+         sumN (map len (bs ++ batch)) <= u64_max ->
+         NODE_SIZE * (2 * N.of_nat (Datatypes.length (bs ++ batch))) <= u64_max ->
+         core_append cr f batch c {| w_disk := d; w_journal := j; w_events := ev |} = (c', w', r) ->
+         r = Panic frame_msg \/
+         r = Ok (N.of_nat (Datatypes.length (bs ++ batch)), sumN (map len (bs ++ batch))) /\
+         WInv cr c' (w_disk w') (bs ++ batch) /\ c_keypair c' = c_keypair c.
+Proof. exact append_preserves. Qed.
+
+Theorem C01_get_returns_the_block :
+  forall (cr : crypto) (c : core) (d : disk) (bs : list bytes) (j : list sop) (ev : list event) (i : N),
+         WInv cr c d bs ->
+         core_get i c {| w_disk := d; w_journal := j; w_events := ev |} =
+         (if i <? N.of_nat (Datatypes.length bs)
+          then (c, {| w_disk := d; w_journal := j; w_events := ev |}, Ok (Some (nth (N.to_nat i) bs [])))
+          else (c, {| w_disk := d; w_journal := j; w_events := EvGet i :: ev |}, Ok None)).
+Proof. exact get_correct. Qed.
+
+Theorem C01_byte_range_is_prefix_sum :
+  forall (cr : crypto) (c : core) (d : disk) (bs : list bytes) (i : N),
+         WInv cr c d bs ->
+         i < N.of_nat (Datatypes.length bs) ->
+         byte_range (c_tree c) (d_tree d) i = Ok (prefix_size bs i, len (nth (N.to_nat i) bs [])).
+Proof. exact byte_range_correct. Qed.
+
+Theorem C01_flush_preserves_lookups :
+  forall (t t' : mtree) (ops : list sop) (d d' : disk) (i : N) (n : node),
+         tree_flush t = Ok (t', ops) ->
+         apply_sops d ops = Some d' ->
+         unflushed_ok t ->
+         NODE_SIZE * i <= u64_max ->
+         required_node t (d_tree d) i = Ok n -> required_node t' (d_tree d') i = Ok n.
+Proof. exact tree_flush_preserves_lookups. Qed.
+
+Theorem C01_read_after_write :
+  forall (f : file) (off : N) (data : bytes), f_read (f_write f off data) off (len data) = Some data.
 Proof. exact f_read_write_same. Qed.
 
-Theorem C01_write_elsewhere_preserves : forall f off data off' n,
-  off' + n <= f_len f -> (off' + n <= off \/ off + len data <= off') ->
-  f_read (f_write f off data) off' n = f_read f off' n.
+Theorem C01_write_elsewhere_preserves :
+  forall (f : file) (off : N) (data : bytes) (off' n : N),
+         off' + n <= f_len f ->
+         off' + n <= off \/ off + len data <= off' -> f_read (f_write f off data) off' n = f_read f off' n.
 Proof. exact f_read_write_other. Qed.
 
-Theorem C01_write_at_end_appends : forall f data,
-  f_content (f_write f (f_len f) data) = f_content f ++ data.
+Theorem C01_write_at_end_appends :
+  forall (f : file) (data : bytes), f_content (f_write f (f_len f) data) = f_content f ++ data.
 Proof. exact f_content_write_append. Qed.
 
-Theorem C01_delete_semantics : forall f off n,
-  (f_del f off n = None <-> f_len f < off) /\
-  (forall f', f_del f off n = Some f' ->
-     (n = 0 -> feq f' f) /\
-     (n <> 0 -> f_len f <= off + n -> feq f' (f_truncate f off)) /\
-     (n <> 0 -> off + n < f_len f ->
-        f_len f' = f_len f /\
-        (forall i, off <= i -> i < off + n -> f_byte f' i = 0) /\
-        (forall i, i < off \/ off + n <= i -> f_byte f' i = f_byte f i))).
+Theorem C01_delete_semantics :
+  forall (f : file) (off n : N),
+         (f_del f off n = None <-> f_len f < off) /\
+         (forall f' : file,
+          f_del f off n = Some f' ->
+          (n = 0 -> feq f' f) /\
+          (n <> 0 -> f_len f <= off + n -> feq f' (f_truncate f off)) /\
+          (n <> 0 ->
+           off + n < f_len f ->
+           f_len f' = f_len f /\
+           (forall i : N, off <= i -> i < off + n -> f_byte f' i = 0) /\
+           (forall i : N, i < off \/ off + n <= i -> f_byte f' i = f_byte f i))).
 Proof. exact f_del_spec. Qed.
 
-Theorem C01_append_journal_order : forall cr f batch c w c' w' x,
-  core_append cr f batch c w = (c', w', Ok x) -> batch <> [] ->
-  exists delta fr fl,
-    w_journal w' = rev delta ++ w_journal w /\
-    delta = SW Data (t_byte_length (c_tree c)) (concat batch)
-            :: SW Oplog (ENTRIES_OFFSET + ol_entries_bytes (c_oplog c)) fr :: fl /\
-    (fl = [] \/ flush_shape fl).
+Theorem C01_append_journal_order :
+  forall (cr : crypto) (f : option bool) (batch : list bytes) (c : core) (w : world) 
+           (c' : core) (w' : world) (x : N * N),
+         core_append cr f batch c w = (c', w', Ok x) ->
+         batch <> [] ->
+         exists (delta : list sop) (fr : bytes) (fl : list sop),
+           w_journal w' = rev delta ++ w_journal w /\
+           delta =
+           SW Data (t_byte_length (c_tree c)) (concat batch)
+           :: SW Oplog (ENTRIES_OFFSET + ol_entries_bytes (c_oplog c)) fr :: fl /\ 
+           (fl = [] \/ flush_shape fl).
 Proof. exact append_journal_order. Qed.
 
-Theorem C01_byte_offset_is_left_sum : forall t tf sz pre r post index head off,
-  let d := N.to_nat (ft_depth (n_index r)) in
-  skipped pre head index ->
-  heads pre head = span_lo d (it_new (n_index r)) ->
-  (d < CLIMB)%nat ->
-  index mod 2 = 0 ->
-  heads pre head <= index ->
-  index < next_head (heads pre head) r ->
-  lookups_ok t tf sz d (it_new (n_index r)) ->
-  offset_roots t tf (pre ++ r :: post) index head off =
-  Ok (off + sumN (map n_length pre) + left_sum sz d (it_new (n_index r)) index).
+Theorem C01_byte_offset_is_left_sum :
+  forall (t : mtree) (tf : file) (sz : N -> N) (pre : list node) (r : node) 
+           (post : list node) (index head off : N),
+         let d := N.to_nat (ft_depth (n_index r)) in
+         skipped pre head index ->
+         heads pre head = span_lo d (it_new (n_index r)) ->
+         (d < CLIMB)%nat ->
+         index mod 2 = 0 ->
+         heads pre head <= index ->
+         index < next_head (heads pre head) r ->
+         lookups_ok t tf sz d (it_new (n_index r)) ->
+         offset_roots t tf (pre ++ r :: post) index head off =
+         Ok (off + sumN (map n_length pre) + left_sum sz d (it_new (n_index r)) index).
 Proof. exact offset_roots_spec. Qed.
 
-Theorem C01_left_sum_is_leaf_prefix : forall sz A B,
-  sizes_consistent sz A B ->
-  forall d it index,
-  shaped d it -> A + p2 d <= it_index it + 1 -> it_index it + p2 d <= B + 1 ->
-  index mod 2 = 0 -> in_span d it index ->
-  left_sum sz d it index = leaf_sum sz (span_lo d it) (N.to_nat ((index - span_lo d it) / 2)).
-Proof. exact left_sum_leaf_sum. Qed.
-
-Theorem C01_node_sizes_are_block_sums : forall cr blocks d o,
-  n_length (ref_node cr blocks d o) = ref_size blocks d o /\
-  prefix_size blocks (o * 2 ^ N.of_nat d) + ref_size blocks d o = prefix_size blocks ((o + 1) * 2 ^ N.of_nat d).
+Theorem C01_node_sizes_are_block_sums :
+  forall (cr : crypto) (blocks : list bytes) (d : nat) (o : N),
+         n_length (ref_node cr blocks d o) = ref_size blocks d o /\
+         prefix_size blocks (o * 2 ^ N.of_nat d) + ref_size blocks d o =
+         prefix_size blocks ((o + 1) * 2 ^ N.of_nat d).
 Proof. exact ref_node_size. Qed.
 
+Print Assumptions C01_fresh_history.
+Print Assumptions C01_history.
+Print Assumptions C01_creation_establishes_invariant.
+Print Assumptions C01_append_preserves_invariant.
+Print Assumptions C01_get_returns_the_block.
+Print Assumptions C01_byte_range_is_prefix_sum.
+Print Assumptions C01_flush_preserves_lookups.
 Print Assumptions C01_read_after_write.
 Print Assumptions C01_write_elsewhere_preserves.
 Print Assumptions C01_write_at_end_appends.
 Print Assumptions C01_delete_semantics.
 Print Assumptions C01_append_journal_order.
 Print Assumptions C01_byte_offset_is_left_sum.
-Print Assumptions C01_left_sum_is_leaf_prefix.
 Print Assumptions C01_node_sizes_are_block_sums.
+Print Assumptions toy_history.
+Print Assumptions blank_hash_breaks_reads.
